@@ -67,7 +67,7 @@ example :
 theorem diag_order_iff (isWord : Char → Bool) (sa eb : Option Line) (lines : List Line) :
     Diag.order ∈ (excerpt isWord sa eb lines).2 ↔
       ∃ s e j, sa = some s ∧ eb = some e ∧ firstMatch isWord e lines = some j ∧
-        j ≤ lowerBound isWord sa lines := by
+        j < lowerBound isWord sa lines := by
   rw [excerpt_snd]
   have hl : ∀ ms, Diag.order ∉ (locate ms).2 := by
     intro ms; rw [locate_snd]; split <;> split <;> simp
@@ -92,7 +92,7 @@ theorem diag_notFound_iff (isWord : Char → Bool) (sa eb : Option Line) (lines 
   rw [excerpt_snd]
   have hl : ∀ m, Diag.notFound ∈ (locate (linesContain isWord m lines)).2 ↔ firstMatch isWord m lines = none := by
     intro m; rw [locate_snd, ← linesContain_eq_nil_iff]; split <;> split <;> simp_all
-  have h3 : ∀ (j : Nat) (k : Nat), Diag.notFound ∉ (if j ≤ k then [Diag.order] else []) := by
+  have h3 : ∀ (j : Nat) (k : Nat), Diag.notFound ∉ (if j < k then [Diag.order] else []) := by
     intro j k; split <;> simp
   cases sa with
   | none => cases eb <;> simp [hl]
@@ -113,7 +113,7 @@ theorem diag_ambiguous_iff (isWord : Char → Bool) (sa eb : Option Line) (lines
   rw [excerpt_snd]
   have hl : ∀ ms, Diag.ambiguous ∈ (locate ms).2 ↔ 2 ≤ ms.length := by
     intro ms; rw [locate_snd]; split <;> split <;> simp_all
-  have h3 : ∀ (j : Nat) (k : Nat), Diag.ambiguous ∉ (if j ≤ k then [Diag.order] else []) := by
+  have h3 : ∀ (j : Nat) (k : Nat), Diag.ambiguous ∉ (if j < k then [Diag.order] else []) := by
     intro j k; split <;> simp
   cases sa with
   | none => cases eb <;> simp [hl]
@@ -128,7 +128,7 @@ theorem diag_ambiguous_iff (isWord : Char → Bool) (sa eb : Option Line) (lines
 
 example :
     (excerpt (fun c => c.isAlphanum) (some "S".toList) (some "E".toList)
-      ["# S".toList, "# E".toList, "x".toList, "# E".toList]).2 = [Diag.ambiguous, Diag.order] := by decide
+      ["# S".toList, "# E".toList, "x".toList, "# E".toList]).2 = [Diag.ambiguous] := by decide
 
 /-- Both markers present and in order: the excerpt is exactly `lines[i+1 : j]`; no marker is
 reported missing; with at least one line between the markers there is no order diagnostic. -/
@@ -222,22 +222,42 @@ example :
     excerpt (fun c => c.isAlphanum) (some "S".toList) (some "E".toList)
       ["# E".toList, "a".toList, "# S".toList, "b".toList] = ([], [Diag.order]) := by decide
 
-/-- Note (probed on the code, not forbidden by the property): for *adjacent* markers the excerpt is
-the correct empty one, and the handler additionally emits the "precedes" diagnostic. -/
-theorem excerpt_adjacent_note (isWord : Char → Bool) (s e : Line) (lines : List Line) (i : Nat)
+/-- **Adjacent markers** (the end marker on the line right after the start marker): the excerpt is the correct empty
+one and nothing is reported - the markers ARE in order. (The code before the repair tested `start_after >= end_before`
+with `start_after` already past the marker line and reported "precedes" here.) -/
+theorem excerpt_adjacent_unreported (isWord : Char → Bool) (s e : Line) (lines : List Line) (i : Nat)
     (hs : firstMatch isWord s lines = some i) (he : firstMatch isWord e lines = some (i + 1)) :
     (excerpt isWord (some s) (some e) lines).1 = [] ∧
-    Diag.order ∈ (excerpt isWord (some s) (some e) lines).2 := by
-  refine ⟨?_, (diag_order_iff ..).mpr ⟨s, e, i + 1, rfl, rfl, he, by simp [lowerBound, hs]⟩⟩
-  rw [(excerpt_spec isWord s e lines i (i + 1) hs he (by omega)).1]
-  apply List.drop_eq_nil_of_le
-  simp; omega
+    Diag.order ∉ (excerpt isWord (some s) (some e) lines).2 := by
+  refine ⟨?_, ?_⟩
+  · rw [(excerpt_spec isWord s e lines i (i + 1) hs he (by omega)).1]
+    apply List.drop_eq_nil_of_le
+    simp; omega
+  · intro h
+    obtain ⟨s', e', j, hs', he', hj, hlt⟩ := (diag_order_iff ..).mp h
+    cases hs'; cases he'
+    rw [he] at hj
+    cases hj
+    simp [lowerBound, hs] at hlt
+
+/-- **The order diagnostic is never invented**: it is emitted only when both markers were requested, both are carried by
+lines of the file, and the end marker's first line is not after the start marker's first line. -/
+theorem order_diag_sound (isWord : Char → Bool) (sa eb : Option Line) (lines : List Line)
+    (h : Diag.order ∈ (excerpt isWord sa eb lines).2) :
+    ∃ s e j, sa = some s ∧ eb = some e ∧ firstMatch isWord e lines = some j ∧
+      (∀ i, firstMatch isWord s lines = some i → j ≤ i) := by
+  obtain ⟨s, e, j, hs, he, hj, hlt⟩ := (diag_order_iff ..).mp h
+  refine ⟨s, e, j, hs, he, hj, ?_⟩
+  intro i hi
+  subst hs
+  simp [lowerBound, hi] at hlt
+  omega
 
 example :
     firstMatch (fun c => c.isAlphanum) "S".toList ["a".toList, "# S".toList, "# E".toList] = some 1 ∧
     firstMatch (fun c => c.isAlphanum) "E".toList ["a".toList, "# S".toList, "# E".toList] = some 2 ∧
     excerpt (fun c => c.isAlphanum) (some "S".toList) (some "E".toList) ["a".toList, "# S".toList, "# E".toList]
-      = ([], [Diag.order]) := by decide
+      = ([], []) := by decide
 
 /-- The excerpt is always a contiguous block of the file's lines, in order, each unchanged. -/
 theorem excerpt_sublist (isWord : Char → Bool) (sa eb : Option Line) (lines : List Line) :
